@@ -42,6 +42,10 @@ type c18Act struct {
 	// region client: json.Marshal) - with Gate, at the moment the response has been consumed and the
 	// sender has not gone on yet; otherwise right after the action. Looking must not change anything.
 	Dump bool `json:"dump,omitempty"`
+	// Others (kind send with Gate): while the sender is held in its Write, the server first answers every OTHER
+	// outstanding request (the reader brings the counter to zero with this request registered and being written),
+	// then this one
+	Others bool `json:"others,omitempty"`
 }
 
 type c18Case struct {
@@ -231,6 +235,7 @@ func c18RunInBubble(c c18Case) (out Outcome) {
 	opts := memconn.Options{}
 	var cancelInWrite *c18Call
 	gateDump := false
+	gateOthers := false
 	dumps := 0
 	var dumpTarget any
 	dump := func() {
@@ -253,6 +258,26 @@ func c18RunInBubble(c c18Case) (out Outcome) {
 		req, err := wire.ParseRequest(data[4:])
 		if err != nil {
 			return
+		}
+		if gateOthers {
+			gateOthers = false
+			for k := 0; k < 16; k++ {
+				srv.mu.Lock()
+				other := -1
+				for i, r := range srv.outstanding {
+					if r.Header.GetCallId() != req.Header.GetCallId() {
+						other = i
+						break
+					}
+				}
+				srv.mu.Unlock()
+				if other < 0 || !srv.answer(other) {
+					break
+				}
+				for i := 0; i < 2000; i++ {
+					runtime.Gosched()
+				}
+			}
 		}
 		delivered := func() bool {
 			mu.Lock()
@@ -386,8 +411,9 @@ func c18RunInBubble(c c18Case) (out Outcome) {
 		case "send":
 			sendGate2 = a.Gate2 && !a.Gate
 			gateDump = a.Gate && a.Dump
+			gateOthers = a.Gate && a.Others
 			send(false, false, a.Gate)
-			gateDump = false
+			gateDump, gateOthers = false, false
 		case "answersend":
 			mu.Lock()
 			holdClear = a.HoldClear
@@ -633,6 +659,7 @@ func c18Gen(t *rapid.T) c18Case {
 				act.InWrite = kind == "cancelsend" && rapid.Bool().Draw(t, "inwrite")
 				act.Gate2 = kind == "send" && !act.Gate && rapid.IntRange(0, 2).Draw(t, "gate2") == 0
 				act.Dump = rapid.IntRange(0, 3).Draw(t, "dump") == 0
+				act.Others = act.Gate && rapid.Bool().Draw(t, "others")
 				c.Acts = append(c.Acts, act)
 			}
 			if c.FlushMS > 0 {
@@ -656,6 +683,7 @@ func c18Gen(t *rapid.T) c18Case {
 		case "send":
 			a.Gate = rapid.IntRange(0, 2).Draw(t, "gate") == 0
 			a.Gate2 = !a.Gate && rapid.IntRange(0, 2).Draw(t, "gate2") == 0
+			a.Others = a.Gate && rapid.Bool().Draw(t, "others")
 		case "cancelsend":
 			a.InWrite = rapid.Bool().Draw(t, "inwrite")
 		case "answersend":
